@@ -663,6 +663,17 @@ func (p *ProjectRunner) ShutDownProject() error {
 			log.Error().Msgf("Failed to build project run order: %s", err.Error())
 		}
 		slices.Reverse(shutdownOrder)
+		// a process whose configuration a scale-down or update is removing right now is still
+		// registered and alive: it has to be stopped as well, and the processes it depends on wait for it
+		listed := make(map[*Process]bool, len(shutdownOrder))
+		for _, proc := range shutdownOrder {
+			listed[proc] = true
+		}
+		for _, proc := range p.runningProcesses {
+			if !listed[proc] {
+				shutdownOrder = append(shutdownOrder, proc)
+			}
+		}
 	} else {
 		for _, proc := range p.runningProcesses {
 			shutdownOrder = append(shutdownOrder, proc)
